@@ -219,6 +219,25 @@ def run_semantic(ctx, progs):
             if w in ('nullable', 'trueValue'):
                 continue      # as the value of a `let` these start like a literal (null / true) and are rejected: loud, not a change of meaning
             tb.append(('let x = %s\nrule r {\n  %%x == %d\n  o {\n    %s[*] == %d\n  }\n}\n' % (w, val, w, val), 'let x = this.%s\nrule r {\n  %%x == %d\n  o {\n    this.%s[*] == %d\n  }\n}\n' % (w, val, w, val), d))
+    # an explicit `this.` INSIDE a filter (the element being filtered), at every place a filter can stand: after a key, in a block
+    # over several values, nested in another filter, in a `let`, in a when condition, with `some`, in an or-line
+    tags_a = [{'Key': 'env', 'Value': 'prod'}, {'Key': 'x', 'Value': 'y'}]
+    tags_b = [{'Key': 'env', 'Value': 'dev'}]
+    fdocs = [{'Key': 'outer', 'Tags': tags_a, 'Resources': {'a': {'Type': 'T', 'Key': 'res', 'Properties': {'Tags': tags_a}}, 'b': {'Type': 'T', 'Properties': {'Tags': tags_b}}},
+              'l': [{'k': 1, 'v': [{'k': 2}]}, {'k': 9, 'v': [{'k': 3}]}]},
+             {'Key': 'env', 'Tags': tags_b, 'Resources': {'a': {'Type': 'T', 'Key': 'env', 'Properties': {'Tags': tags_b}}}, 'l': [{'k': 2, 'v': []}]},
+             {'Tags': [], 'Resources': {}, 'l': []}]
+    fbodies = ["Tags[ %sKey == 'env' ].Value == 'prod'", "Tags[ %sKey == 'env' ] !empty", "some Tags[ %sKey == 'env' ].Value == 'prod'",
+               "Resources.* {\n    Properties.Tags[ %sKey == 'env' ].Value == 'prod'\n  }", "Resources.*[ %sType == 'T' ].Properties.Tags[ %sKey == 'env' ].Value == 'prod'",
+               "l[ %sv[ %sk == 2 ] !empty ].k == 1", "l[ %sk == 9 or %sk == 1 ].v[*].k >= 2", "when Tags[ %sKey == 'env' ] !empty {\n    Tags[ %sKey == 'x' ].Value == 'y'\n  }",
+               "Tags[ %sKey == 'env' ] {\n    %sValue == 'prod'\n  }", "Resources.*.Properties.Tags[ %sKey == 'env' ].Value in ['prod', 'dev']"]
+    for body in fbodies:
+        a = 'rule r {\n  %s\n}\n' % body.replace('%s', '')
+        b = 'rule r {\n  %s\n}\n' % body.replace('%s', 'this.')
+        a2 = "let t = Tags[ Key == 'env' ]\nrule r {\n  %%t.Value == 'prod'\n  %s\n}\n" % body.replace('%s', '')
+        b2 = "let t = Tags[ this.Key == 'env' ]\nrule r {\n  %%t.Value == 'prod'\n  %s\n}\n" % body.replace('%s', 'this.')
+        for d in fdocs:
+            tb.append((a, b, d)); tb.append((a2, b2, d))
     for i, (a, b, d) in enumerate(tb):
         pairs.append((a, json.dumps(d))); meta.append((10 ** 6 + i, 'base', a))
         pairs.append((b, json.dumps(d))); meta.append((10 ** 6 + i, 'equivalent-form', b))
